@@ -74,10 +74,31 @@ PROPS["C06"] = dict(
                 "floats, byte and unicode strings.",
     limit_quick=60)
 
+PROPS["C16"] = dict(
+    level="proof", needs_ext=True,
+    technique="contract-based deductive verification over an abstract byte-order model of numpy arrays (own VC generator over the "
+              "Python ast, z3, quantifier-free); numpy's byteswap/newbyteorder algebra assumed and conformance-checked bounded",
+    level_text="is_big_endian/is_little_endian, byteswap, to_native, to_big_endian and to_little_endian (inplace off and on, keep_dtype "
+               "symbolic) are verified against contracts transcribed from the statement: every multi-byte field of the result declares "
+               "the requested order, decoded values and field structure are preserved, already-converted input comes back bit-identical "
+               "(idempotence), bytes are either kept or swapped (swapping twice restores them by the involution axiom), inplace=False "
+               "returns an independent copy on every branch and leaves the input untouched, inplace=True returns the caller's object. "
+               "Verified for plain arrays and structured arrays of 1-3 fields with arbitrary per-field order codes under the "
+               "statement's 'uniformly ordered' precondition, for both machine byte orders.",
+    level_note="Trusted: esvc, z3, CPython's ast; the byte-order model (esvc/bomodel.py): per-field order code and opaque bytes, "
+               "byteswap is an involution that leaves '|' fields alone, newbyteorder flips '<'/'>' and maps '=' to the non-native order, "
+               "decode(swap(bytes), other order) == decode(bytes, order); shapes are not modelled (all operations are cell-wise); "
+               "structured arrays with more than 3 fields are covered by the bounded layer only (the loops over dtype.names are "
+               "unrolled over the verified field lists).",
+    explanation="Proved: 14 contracts (predicates, byteswap, three converters, each with inplace off/on) over plain and 1-3 field "
+                "arrays. Bounded (labelled): the same contracts on real numpy arrays of every numeric kind and size in all four order "
+                "spellings, strings, 0-d to 2-d, structured arrays with mixed single-byte/string/sub-array fields.",
+    limit_quick=60)
+
 for _k in range(1, 21):
     PROPS.setdefault("C%02d" % _k, dict(level="other", needs_ext=True, explanation="see DESIGN.md section 8"))
 
 
-CLAIMED = {"C20", "C02", "C05", "C06"}
+CLAIMED = {"C20", "C02", "C05", "C06", "C16"}
 NOT_APPLICABLE = {("C%02d" % k): "check not built yet (implementation in progress; plan in DESIGN.md section 8)"
                   for k in range(1, 21) if ("C%02d" % k) not in CLAIMED}
